@@ -30,6 +30,8 @@ type Monitor struct {
 	// (term, voter, candidate) -> last entry ids (term, index) of the voter's own log each time it
 	// generated a grant for that candidate in that term
 	voterLogAtGrant map[[3]uint64][][2]uint64
+	// C05: (node, ack term, ack index) -> term of the entry at that index when the ack was created
+	ackCreated map[[3]uint64]uint64
 
 	// per node observation state
 	obs map[uint64]*nodeObs
@@ -506,14 +508,29 @@ func (m *Monitor) checkAckDurable(from *Node, msg *pb.Message, hs *pb.HardState)
 		m.c.violate("C05", "append acknowledged before durable", "node %d acks index %d (term %d) to %d but its storage ends at %d", from.ID, i, msg.GetTerm(), msg.GetTo(), li)
 		return
 	}
-	if from.RN == nil {
+	// the stored entry at i is the one the node held when it created the acknowledgement
+	if want, ok := m.ackCreated[[3]uint64{from.ID, msg.GetTerm(), i}]; ok {
+		if t, err := from.St.Term(i); err == nil && t != want {
+			m.c.violate("C05", "append acknowledged before durable", "node %d acks index %d (term %d): stored entry has term %d, acknowledged entry had term %d", from.ID, i, msg.GetTerm(), t, want)
+		}
+	}
+}
+
+// noteAcksCreated records, for every acknowledgement created by the last call, the term of the entry
+// at the acknowledged index at that moment.
+func (m *Monitor) noteAcksCreated(n *Node) {
+	vi := n.RN.VerifInfo()
+	if len(vi.PendingAfterApp) <= cur.nmaa {
 		return
 	}
-	// the stored entry at i is the one the node's log holds (what it acknowledged)
-	base, ents := from.RN.VerifLogicalLog()
-	if e := entryAt(base, ents, i); e != nil {
-		if t, err := from.St.Term(i); err == nil && t != e.GetTerm() {
-			m.c.violate("C05", "append acknowledged before durable", "node %d acks index %d: stored term %d, log term %d", from.ID, i, t, e.GetTerm())
+	for _, r := range vi.PendingAfterApp[cur.nmaa:] {
+		if r.GetType() == pb.MsgAppResp && !r.GetReject() && r.GetIndex() > 0 {
+			if t, err := n.RN.VerifTerm(r.GetIndex()); err == nil {
+				if m.ackCreated == nil {
+					m.ackCreated = map[[3]uint64]uint64{}
+				}
+				m.ackCreated[[3]uint64{n.ID, r.GetTerm(), r.GetIndex()}] = t
+			}
 		}
 	}
 }
@@ -811,6 +828,7 @@ func (m *Monitor) afterCall(n *Node, op string) {
 	}
 	st := n.RN.BasicStatus()
 	transfer := strings.HasPrefix(op, "step m 14 ")
+	m.noteAcksCreated(n)
 	m.checkCampaign(n, st, transfer, firstWords(op, 3))
 	m.checkNoAppWhileSnapshot(n)
 	m.observe(n, op)
@@ -1060,6 +1078,19 @@ func payloadID(data []byte) string {
 	return string(data)
 }
 
+// registerProposal / markDropped: bookkeeping for proposals that are not issued through Propose()
+func (m *Monitor) registerProposal(n *Node, data []byte) {
+	if len(data) > 0 {
+		m.proposals[payloadID(data)] = &propInfo{node: n.ID}
+	}
+}
+
+func (m *Monitor) markDropped(data []byte) {
+	if pi := m.proposals[payloadID(data)]; pi != nil {
+		pi.dropped = true
+	}
+}
+
 func (m *Monitor) beforePropose(n *Node, data []byte) {
 	m.snapshotCtx(n)
 	if len(data) > 0 {
@@ -1305,6 +1336,16 @@ func canonCS(cs *pb.ConfState) *pb.ConfState {
 // C15 convergence
 
 func (m *Monitor) onConvergeStart() {}
+
+// converged: would the end-of-suffix check pass now? (evaluated on a scratch violation list)
+func (m *Monitor) converged() bool {
+	saved := m.c.Violations
+	m.c.Violations = nil
+	m.onConvergeEnd()
+	ok := len(m.c.Violations) == 0
+	m.c.Violations = saved
+	return ok
+}
 
 func (m *Monitor) onConvergeEnd() {
 	c := m.c
